@@ -22,6 +22,7 @@ func init() {
 		ID:    "C17",
 		Level: "exploration",
 		Rule: "valid: request for a catalogued model with a random subset/order of parameters and inputs, answered by the real ow-single binary (child process) and by sim.RunSingleModelJSON in-process, compared with a direct one-cell Run; " +
+			"sequence: several requests (complete, partial, members left out, empty, other model) answered one after another by sim.RunSingleModelJSON in ONE process, each answer compared with the answer a fresh ow-single process gives to the same bytes (outputs, states, whether a problem is described, which parameters/inputs the log names); " +
 			"hostile: generated request classes (random bytes, truncations, structural mutations, unknown/empty model, missing or unequal-length inputs, super/subsets) - exit status 0, exactly one JSON document, log names the problem; jsonsafe: JsonSafeArray/JsonSafeValue on random arrays and views; " +
 			"distinct = distinct (class, model) ; non-trivial = request non-empty",
 		Assumptions: []string{
@@ -34,6 +35,7 @@ func init() {
 			{Name: "valid", Variant: "plain", N: core.Tiered(41*6, 41*100), Run: c17Valid},
 			{Name: "hostile", Variant: "plain", N: core.Tiered(400, 20000), Run: c17Hostile},
 			{Name: "jsonsafe", Variant: "plain", N: core.Tiered(200, 5000), Run: c17JsonSafe},
+			{Name: "sequence", Variant: "plain", N: core.Tiered(80, 3000), Run: c17Sequence},
 		},
 	})
 }
@@ -712,4 +714,171 @@ func fmtVals(v []float64) []string {
 		r[i] = fmt.Sprint(x)
 	}
 	return r
+}
+
+// ---------------------------------------------------------------------------
+// sequence: the answer to a request does not depend on the requests the process answered before it
+
+func c17Sequence(c *core.Ctx) {
+	names := ModelNames()
+	pick := func() string {
+		m := names[c.R.Intn(len(names))]
+		for tableModel(m) {
+			m = names[c.R.Intn(len(names))]
+		}
+		return m
+	}
+	model := pick()
+	other := pick()
+	n := c.R.IntRange(3, 6)
+	type rq struct {
+		kind, model string
+		body        []byte
+	}
+	var reqs []rq
+	build := func(m, kind string) rq {
+		desc := NewModel(m).Description()
+		T := c.R.IntRange(1, 12)
+		ps := GenPSet(m, c.R, genOpts{widthClass: 1 + c.R.Intn(13)})
+		in := GenInputs(m, c.R, T, ps)
+		r := jReq{Name: m}
+		for i, p := range desc.Parameters {
+			if kind == "complete" || (kind != "no-parameters" && c.R.Bool(0.6)) {
+				r.Parameters = append(r.Parameters, jNameValue{p.Name, ps[i][0]})
+			}
+		}
+		for i, nm := range desc.Inputs {
+			if kind == "complete" || (kind != "no-inputs" && (c.R.Bool(0.7) || len(r.Inputs) == 0)) {
+				r.Inputs = append(r.Inputs, jInput{nm, in[i]})
+			}
+		}
+		if kind == "no-name" {
+			r.Name = ""
+		}
+		b, _ := json.Marshal(r) // omitempty: members without content are left out of the document
+		if kind == "no-name" {
+			b = []byte(strings.Replace(string(b), `"Name":"",`, "", 1))
+		}
+		if kind == "empty-object" {
+			b = []byte("{}")
+		}
+		return rq{kind, m, b}
+	}
+	kinds := []string{"complete", "partial", "no-parameters", "no-inputs", "empty-object", "no-name", "other-model"}
+	for i := 0; i < n; i++ {
+		k := kinds[c.R.Intn(len(kinds))]
+		if i == 0 && c.R.Bool(0.7) {
+			k = "complete"
+		}
+		if k == "other-model" {
+			reqs = append(reqs, build(other, "complete"))
+			reqs[len(reqs)-1].kind = k
+		} else {
+			reqs = append(reqs, build(model, k))
+		}
+	}
+	var bodies []string
+	for _, r := range reqs {
+		bodies = append(bodies, string(r.body))
+	}
+	c.Begin(map[string]interface{}{"model": model, "requests": bodies})
+	c.Class(fmt.Sprintf("sequence/%s/%d", model, n))
+	for i, r := range reqs {
+		desc := NewModel(r.model).Description()
+		so, _, exit, err := runOwSingle(r.body)
+		c.Count("child_processes", 1)
+		if err != nil {
+			c.Inconclusive("cannot run ow-single: " + err.Error())
+			return
+		}
+		if exit != 0 {
+			// a request that ends the process (a default outside the kernel's domain, reported by the valid / hostile
+			// workloads) cannot be part of an in-process sequence
+			c.Count("requests_left_out_because_a_fresh_process_dies_on_them", 1)
+			continue
+		}
+		var buf bytes.Buffer
+		if !c.Guard("runner-panic-in-process", r.model, func() { sim.RunSingleModelJSON(bytes.NewReader(r.body), &buf, true) }) {
+			return
+		}
+		mine, perr := exactlyOneJSON(buf.Bytes())
+		if perr != nil {
+			c.Violate("not-one-json-document", r.model, fmt.Sprintf("request %d of the sequence (%s), in-process runner: %v", i, r.kind, perr))
+			return
+		}
+		fresh, perr := exactlyOneJSON(so)
+		if perr != nil {
+			c.Violate("not-one-json-document", r.model, fmt.Sprintf("request %d (%s): %v", i, r.kind, perr))
+			return
+		}
+		words := append([]string{}, desc.Inputs...)
+		for _, p := range desc.Parameters {
+			words = append(words, p.Name)
+		}
+		if d := answersDiffer(mine, fresh, words); d != "" {
+			c.Violate("answer-depends-on-earlier-requests", r.model, fmt.Sprintf("request %d of %d (%s) answered after %d other request(s) in the same process differs from the answer of a fresh process to the same bytes: %s; request: %s", i, len(reqs), r.kind, i, d, headStr(string(r.body), 300)), "kind", r.kind)
+			return
+		}
+		c.Count("sequence/"+r.kind, 1)
+		if i > 0 {
+			c.Count("answers_compared_after_history", 1)
+		}
+	}
+}
+
+// answersDiffer compares what the statement fixes about two answers to the same request: outputs and states bit for bit,
+// whether a problem / warning is described at all, and which of the model's parameter and input names the log mentions.
+func answersDiffer(a, b *jResp, words []string) string {
+	cmp := func(what string, x, y interface{}) string {
+		mx, okx := x.(map[string]interface{})
+		my, oky := y.(map[string]interface{})
+		if okx != oky || len(mx) != len(my) {
+			return fmt.Sprintf("%s: %d vs %d entries", what, len(mx), len(my))
+		}
+		for k, vx := range mx {
+			vy, ok := my[k]
+			if !ok {
+				return fmt.Sprintf("%s: %s only in one answer", what, k)
+			}
+			sx, isx := vx.([]interface{})
+			sy, isy := vy.([]interface{})
+			if !isx && !isy {
+				sx, sy = []interface{}{vx}, []interface{}{vy}
+			}
+			if len(sx) != len(sy) {
+				return fmt.Sprintf("%s %s: %d vs %d values", what, k, len(sx), len(sy))
+			}
+			for t := range sx {
+				p, okp := jnum(sx[t])
+				q, okq := jnum(sy[t])
+				if okp != okq || !(core.BitEq(p, q) || (math.IsNaN(p) && math.IsNaN(q))) {
+					return fmt.Sprintf("%s %s[%d]: %v vs %v", what, k, t, sx[t], sy[t])
+				}
+			}
+		}
+		return ""
+	}
+	if d := cmp("outputs", a.RunResults.Outputs, b.RunResults.Outputs); d != "" {
+		return d
+	}
+	if d := cmp("states", a.RunResults.States, b.RunResults.States); d != "" {
+		return d
+	}
+	said := func(l []string) bool {
+		for _, e := range l {
+			if strings.TrimSpace(e) != "" {
+				return true
+			}
+		}
+		return false
+	}
+	if said(a.Log) != said(b.Log) {
+		return fmt.Sprintf("log %q vs %q", a.Log, b.Log)
+	}
+	for _, w := range words {
+		if logNames(a.Log, w) != logNames(b.Log, w) {
+			return fmt.Sprintf("only one log names %s: %q vs %q", w, a.Log, b.Log)
+		}
+	}
+	return ""
 }
